@@ -30,6 +30,13 @@ Theorem hash_is_ordered_map : forall ah ops, Forall zop_ok ops ->
 Proof. exact z_hash_is_ordered_map. Qed.
 Print Assumptions hash_is_ordered_map.
 
+(* the constructor (hash k v ..) / {k:v ..} is a history of insertions (MakeHash = HashSet per pair),
+   so hash_is_ordered_map covers every hash built by a constructor and changed afterwards *)
+Theorem make_hash_is_history : forall ah pairs ops,
+  fold_left (zstep ah) ops (zmake ah pairs) = zrun ah (sets_of pairs ++ ops).
+Proof. exact HashTblProofs.make_hash_is_history. Qed.
+Print Assumptions make_hash_is_history.
+
 (* ---- 2. the invariant (buckets / KeyOrder / NumKeys in step) and its preservation ---- *)
 
 Theorem inv_init : forall ah, ZInv ah (empty key Z).
